@@ -90,6 +90,16 @@ def r_parentloop_in_fill(prog):
     return False
 
 
+def r_default_alias_print(prog):
+    """a fill binds the slot-default alias and prints it"""
+    for n in nodes_of(prog):
+        if n["t"] == "fill" and n.get("dflt"):
+            for m in tplgen.walk(n["body"]):
+                if m["t"] == "out" and m["e"].get("var", [None])[0] == n["dflt"]:
+                    return True
+    return False
+
+
 def _nodigits(s):
     return "".join(ch for ch in s if not ch.isdigit()) if isinstance(s, str) else s
 
@@ -107,6 +117,7 @@ def parentloop_only(real, rep, sp):
 
 REGIONS = {
     "captured-parentloop-aliased": r_parentloop_in_fill,
+    "default-alias-render-sees-fill-aliases": lambda p: p["isolated"] and r_default_alias_print(p),
     "django-captured-over-data": r_django_captured,
     "django-slot-owner-override": r_django_nested,
     "django-only-fill-loses-outer": r_django_only_fill,
